@@ -141,7 +141,10 @@ where
 			if !self.is_running.load(Ordering::Relaxed) {
 				break;
 			}
+			#[cfg(not(feature = "verif_hooks"))]
 			thread::sleep(frequency);
+			#[cfg(feature = "verif_hooks")]
+			crate::verif::sleep(frequency);
 		}
 		Ok(())
 	}
